@@ -164,6 +164,25 @@ class Units:
                 for d in fn.defs().get(l, []):
                     if d[0] == "stmt" and d[3]["rv"].get("agg") == "tuple" and first["f"] < len(d[3]["rv"]["ops"]):
                         return self.unit_of(fn, d[3]["rv"]["ops"][first["f"]], depth + 1)
+            # a field of a tuple returned by a local helper: the operand the helper put there
+            if isinstance(first, dict) and first.get("of") == "tuple" and depth < 12:
+                cdefs = [d for d in fn.defs().get(l, []) if d[0] == "call"]
+                if cdefs and len(cdefs) == len(fn.defs().get(l, [])):
+                    us = []
+                    for d in cdefs:
+                        cal = d[2]["callee"]
+                        target = None if "indirect" in cal else (self.F.fn(cal.get("resolved") or cal["def"]) or self.F.fn(cal["def"]))
+                        if target is None or target.in_test_file():
+                            us = None
+                            break
+                        for bi2, si2, st2 in target.assigns():
+                            if st2["pl"]["l"] == 0 and not st2["pl"]["p"] and st2["rv"].get("agg") == "tuple" and first["f"] < len(st2["rv"]["ops"]):
+                                us.append(self.unit_of(target, st2["rv"]["ops"][first["f"]], depth + 1))
+                    if us:
+                        r = us[0]
+                        for x in us[1:]:
+                            r = join(r, x)
+                        return r
             # a field of a struct value built in this body (`let span = a..b; span.start`): the operand that was put there
             if isinstance(first, dict) and "f" in first and first.get("of") not in ("tuple", "closure"):
                 built = [d for d in fn.defs().get(l, []) if d[0] == "stmt" and isinstance(d[3]["rv"].get("agg"), dict) and d[3]["rv"]["agg"].get("adt") == first.get("of")]
